@@ -20,8 +20,10 @@
    LeadingPrefix / Boyer-Moore prefix, the case-insensitive prefix, LeadingPrefixes, fixed-distance
    sets / characters / strings, the literal after a leading loop, the landmark chain, the
    first-character set (FcPrefix).  *)
-From Verif Require Import Base.Prelude Base.Utf8 Model.Tree Model.Spec Model.Analysis
-     Proofs.AnalysisReach Proofs.AnalysisProofs Proofs.AnalysisPrefix Proofs.AnalysisFacts.
+From Verif Require Import Base.Prelude Model.CharClass Base.Utf8 Model.Tree Model.Spec Model.Analysis Model.Analysis2
+     Proofs.AnalysisReach Proofs.AnalysisProofs Proofs.AnalysisPrefix Proofs.AnalysisFacts
+     Proofs.Analysis2Cls Proofs.Analysis2Ffcc Proofs.Analysis2Fixed Proofs.Analysis2Lal Proofs.Analysis2Prefixes Proofs.Analysis2Chain Proofs.Analysis2Fc Proofs.Analysis2Abbrev
+     Proofs.Utf8Proofs.
 
 (* ---- MinRequiredLength / MaxPossibleLength --------------------------------------------------- *)
 
@@ -279,3 +281,342 @@ Example C04_witness_saturation :
   min_len (NConcat 0 [NLoop false 0 1073741824 1073741824 (NMulti 0 [97; 98]);
                       NLoop false 0 1073741824 1073741824 (NMulti 0 [97; 98])]) = 2147483646.
 Proof. vm_compute. reflexivity. Qed.
+
+(* ============================================================================================== *)
+(* Second part: the analyses of Model/Analysis2.v (tied to the code by leg c04-analysis2, which     *)
+(* compares each function's result with the implementation's own function on every exported tree). *)
+(*                                                                                                  *)
+(* Classes: [sets] is the table set id -> CharSet structure exported with the tree; the semantics'   *)
+(* oracle set_in answers as the C16 model's CharIn does on those structures (hypothesis, = C16's    *)
+(* tie); cls_good_b (normal form of every exported class) and lits_ok (pattern runes in 0..MaxRune,  *)
+(* no empty Multi) are recomputed by the leg on every exported tree.  Input runes are valid         *)
+(* (0..0x10FFFF: outside that range class membership itself is the known finding rune_out_of_range). *)
+(* ============================================================================================== *)
+
+(* findFirstCharClass (prefixanalyzer.go:19): when it returns a class C, every successful attempt consumes
+   at least one character (the pattern is not nullable) and the first character consumed -- at p for a
+   left-to-right pattern (d = false), at p-1 for a right-to-left one -- is in C.  A nil result (None) makes
+   no claim: the pattern may match the empty string or could not be analysed. *)
+Theorem C04_first_char_class_sound :
+  forall e (cat_in : Z -> Z -> bool) (sets : list cls) (d : bool) fuel root p s' C,
+    forallb cls_good_b sets = true ->
+    (forall id x, set_in e id x = char_in cat_in (set_cls sets id) x) ->
+    (forall i, 0 <= char_at e i <= 1114111) ->
+    shape_ok d root = true -> no_ci_lit root = true -> lits_ok root = true -> 0 <= p <= tlen e ->
+    find_first_char_class cat_in sets root = Some C ->
+    attempt e fuel root p = Ok (Some s') ->
+    (if d then 0 < p /\ pos s' < p else p < tlen e /\ p < pos s') /\
+    char_in cat_in C (if d then char_at e (p - 1) else char_at e p) = true.
+Proof.
+  intros e cat_in sets d fuel root p s' C Hg Ha Hv.
+  exact (a2_first_char_class_sound e cat_in sets (sets_good_b cat_in sets Hg) Ha Hv d fuel root p s' C).
+Qed.
+Print Assumptions C04_first_char_class_sound.
+
+(* findFixedDistanceSets (prefixanalyzer.go:707, both analysis depths): for every published set at distance d,
+   at every successful attempt at p of a left-to-right pattern the character at p + d exists and is in the
+   set -- the predicate the run-time finder findFixedDistanceSetsLeftToRight relies on.  (The Chars / Range /
+   Negated decoration and the quality sort only select among and abbreviate these pairs.)  Right-to-left: the
+   function is not called (optimizations.go returns before it) and returns nothing for a right-to-left root. *)
+Theorem C04_fixed_distance_sets_sound :
+  forall e (cat_in : Z -> Z -> bool) (sets : list cls) (thorough : bool) fuel root p s',
+    forallb cls_good_b sets = true ->
+    (forall id x, set_in e id x = char_in cat_in (set_cls sets id) x) ->
+    (forall i, 0 <= char_at e i <= 1114111) ->
+    tlen e < INF ->
+    shape_ok false root = true -> no_ci_lit root = true -> lits_ok root = true -> 0 <= p <= tlen e ->
+    attempt e fuel root p = Ok (Some s') ->
+    forall f, In f (find_fixed_distance_sets cat_in sets thorough root) ->
+      0 <= fs_dist f /\ p + fs_dist f < tlen e /\
+      char_in cat_in (fs_set f) (char_at e (p + fs_dist f)) = true.
+Proof.
+  intros e cat_in sets th fuel root p s' Hg Ha Hv Hshort.
+  exact (a2_fixed_distance_sets_sound cat_in sets th (sets_good_b cat_in sets Hg) e Ha Hv Hshort fuel root p s').
+Qed.
+Print Assumptions C04_fixed_distance_sets_sound.
+
+(* findLiteralFollowingLeadingLoop (prefixanalyzer.go:1158) published (LoopNode.Set = set id lal_loop, literal):
+   every successful attempt at p of a left-to-right pattern reads a run of loop-set characters p .. k-1 and
+   the literal occurs at k -- what runner.go's findLiteralAfterLoopLeftToRight relies on: it finds the first
+   occurrence of the literal at or after the scan position and walks back over loop-set characters, so it never
+   steps over a match start.  "Occurs at k" (lal_lit_at): Char c: k < n and text[k] = c; Chars: text[k] is one of
+   them; String (case-sensitive, the Go string as UTF-8 bytes; valid UTF-8 on every real pattern, checked by the
+   leg): the text from k starts with its runes; String (ordinal ignore-case, ASCII): every text character is
+   the published character or, for a published lower-case letter, its upper-case form (ci_match).
+   The input is a sequence of valid scalar values (no surrogates: the literal went through a Go string). *)
+Theorem C04_literal_after_loop_sound :
+  forall e (cat_in : Z -> Z -> bool) (part_cc : Z -> bool) (sets : list cls) fuel root p s' L,
+    forallb cls_good_b sets = true ->
+    (forall id x, set_in e id x = char_in cat_in (set_cls sets id) x) ->
+    tlen e < INF -> forallb Utf8.valid_rune (txt e) = true ->
+    shape_ok false root = true -> no_ci_lit root = true -> 0 <= p <= tlen e ->
+    find_lit_after_loop cat_in part_cc sets root = Ok (Some L) ->
+    attempt e fuel root p = Ok (Some s') ->
+    exists k, p <= k <= tlen e /\
+      (forall i, p <= i < k -> set_in e (lal_loop L) (char_at e i) = true) /\
+      lal_lit_at e (lal_what L) k.
+Proof.
+  intros e cat_in part_cc sets fuel root p s' L Hg Ha Hshort Hsc.
+  exact (a2_lit_after_loop_sound e cat_in part_cc sets (sets_good_b cat_in sets Hg) Ha Hshort Hsc fuel root p s' L).
+Qed.
+Print Assumptions C04_literal_after_loop_sound.
+
+(* findPrefixOrdinalCaseInsensitive (prefixanalyzer.go:214): the text read by a node from position pos s matches
+   the published ASCII string case-insensitively *)
+Theorem C04_ci_prefix_sound :
+  forall e (cat_in : Z -> Z -> bool) (part_cc : Z -> bool) (sets : list cls) fuel root p s',
+    forallb cls_good_b sets = true ->
+    (forall id x, set_in e id x = char_in cat_in (set_cls sets id) x) ->
+    tlen e < INF ->
+    shape_ok false root = true -> no_ci_lit root = true -> 0 <= p <= tlen e ->
+    attempt e fuel root p = Ok (Some s') ->
+    forall i, 0 <= i < zlen (ci_prefix cat_in part_cc sets root) ->
+      p + i < tlen e /\
+      ci_match (nth (Z.to_nat i) (ci_prefix cat_in part_cc sets root) 0) (char_at e (p + i)) = true.
+Proof.
+  intros e cat_in part_cc sets fuel root p s' Hg Ha Hshort Hs Hn Hp Hat.
+  pose proof (attempt_reach e _ _ _ _ Hat) as Hr.
+  exact (ci_prefix_sound e cat_in part_cc sets (sets_good_b cat_in sets Hg) Ha Hshort root _ _ Hr Hs Hn Hp).
+Qed.
+Print Assumptions C04_ci_prefix_sound.
+
+(* findPrefixes (prefixanalyzer.go:428), case-sensitive (ic = false) and ignoreCase (ic = true): when it returns
+   the list ps, every successful attempt at p of a left-to-right pattern reads text that starts with one of
+   them -- what findLeadingStringsLeftToRight relies on.  Rune by rune (pm): equal; under ignoreCase a published
+   rune is either one that does not take part in case conversion (equal) or the lower-case ASCII letter of an
+   [Xx] set, matched by either case.  The model's prefixes are the rune lists written to the buffers; the
+   published Go strings are their UTF-8 encodings, which read back as the same runes (C04_prefix_runes) unless
+   the pattern contains a surrogate escape. *)
+Theorem C04_prefixes_sound :
+  forall e (cat_in : Z -> Z -> bool) (part_cc : Z -> bool) (sets : list cls) (ic : bool) fuel root p s' ps,
+    forallb cls_good_b sets = true ->
+    (forall id x, set_in e id x = char_in cat_in (set_cls sets id) x) ->
+    shape_ok false root = true -> no_ci_lit root = true -> 0 <= p <= tlen e ->
+    find_prefixes cat_in part_cc sets ic root = Some ps ->
+    attempt e fuel root p = Ok (Some s') ->
+    exists P, In P ps /\
+      forall i, 0 <= i < zlen P ->
+        p + i < tlen e /\ pm ic (nth (Z.to_nat i) P 0) (char_at e (p + i)) = true.
+Proof.
+  intros e cat_in part_cc sets ic fuel root p s' ps Hg Ha.
+  exact (a2_prefixes_sound e cat_in part_cc sets ic (sets_good_b cat_in sets Hg) Ha fuel root p s' ps).
+Qed.
+Print Assumptions C04_prefixes_sound.
+
+Theorem C04_prefix_runes :
+  forall P, forallb Utf8.valid_rune P = true -> runes_of (encode_string P) = P.
+Proof.
+  intros P H. unfold runes_of. rewrite (decode_encode_valid P H). rewrite map_map. cbn [fst]. apply map_id.
+Qed.
+Print Assumptions C04_prefix_runes.
+
+(* findRequiredLandmarkChain (prefixanalyzer.go:1302) published (LeadingLoopSet = set id loop, Landmarks = lms):
+   every successful attempt at p of a left-to-right pattern reads a run of leading-loop-set characters
+   p .. s1-1; from s1 on the landmarks occur in order (chain_first / chain_from): for each landmark one of its
+   alternatives a occupies [s, t) = leading whitespace run [s, c) (non-empty iff RequireWhitespaceBefore; s = c
+   when the alternative has no leading set), core [c, en) (the Literal, or MinRepeat..MaxRepeat characters of
+   Set), trailing whitespace run [en, t) likewise (alt_at); the first landmark's s is exactly s1 (only
+   zero-width nodes may sit between the loop and the first landmark), every later s is >= the previous t.
+   This is stronger than what a sound run-time finder needs (runner.go:1744 after the repairs 573b074, 563c473,
+   5218d84: find the alternatives' cores in order, chaining from core start + minimal width, and rewind from the
+   first core over the union of its alternatives' leading whitespace sets and then the loop set). *)
+Theorem C04_landmark_chain_sound :
+  forall e (cat_in : Z -> Z -> bool) (sets : list cls) fuel root p s' loop lms,
+    tlen e < INF ->
+    shape_ok false root = true -> no_ci_lit root = true -> lits_ok root = true -> 0 <= p <= tlen e ->
+    find_landmark_chain cat_in sets root = Some (loop, lms) ->
+    attempt e fuel root p = Ok (Some s') ->
+    exists s1, p <= s1 <= tlen e /\
+      (forall i, p <= i < s1 -> set_in e loop (char_at e i) = true) /\
+      chain_first e lms s1 /\ (2 <= length lms)%nat.
+Proof.
+  intros e cat_in sets fuel root p s' loop lms Hshort.
+  exact (a2_landmark_chain_sound e cat_in sets Hshort fuel root p s' loop lms).
+Qed.
+Print Assumptions C04_landmark_chain_sound.
+
+(* getFirstCharsPrefix (prefix.go:18, the legacy Code.FcPrefix used by findFirstCharDefault for right-to-left
+   patterns and the left-to-right modes without an optimised finder): when it returns (PrefixSet, CaseInsensitive),
+   every successful attempt consumes at least one character (a non-nil FcPrefix means the pattern is not nullable)
+   and the first one -- at p left-to-right (d = false), at p-1 right-to-left -- is in PrefixSet; on a real tree
+   (no_ci_lit) CaseInsensitive is false, so the run-time loop does not lower-case.  nil (None) makes no claim. *)
+Theorem C04_first_chars_prefix_sound :
+  forall e (cat_in : Z -> Z -> bool) (to_lower : Z -> Z) (sets : list cls) (d : bool) fuel root p s' C ci,
+    forallb cls_good_b sets = true ->
+    (forall id x, set_in e id x = char_in cat_in (set_cls sets id) x) ->
+    (forall i, 0 <= char_at e i <= 1114111) ->
+    shape_ok d root = true -> no_ci_lit root = true -> lits_ok root = true -> 0 <= p <= tlen e ->
+    first_chars_prefix cat_in to_lower sets root = Ok (Some (C, ci)) ->
+    attempt e fuel root p = Ok (Some s') ->
+    ci = false /\
+    (if d then 0 < p /\ pos s' < p else p < tlen e /\ p < pos s') /\
+    char_in cat_in C (if d then char_at e (p - 1) else char_at e p) = true.
+Proof.
+  intros e cat_in to_lower sets d fuel root p s' C ci Hg Ha Hv.
+  exact (a2_first_chars_prefix_sound cat_in sets (sets_good_b cat_in sets Hg) e Ha Hv to_lower d fuel root p s' C ci).
+Qed.
+Print Assumptions C04_first_chars_prefix_sound.
+
+(* The decoration of a published fixed-distance set (FixedDistanceSet.Negated / Range / Chars, prefixanalyzer.go:734)
+   says exactly what its Set says, for every rune: this is what lets the run-time search use IndexOfAny /
+   IndexOfAnyInRange instead of CharIn (runner.go charInFixedDistanceSet). *)
+Theorem C04_fixed_set_abbrev :
+  forall (cat_in : Z -> Z -> bool) (sets : list cls) (thorough : bool) root f,
+    forallb cls_good_b sets = true -> shape_ok false root = true -> lits_ok root = true ->
+    In f (find_fixed_distance_sets cat_in sets thorough root) ->
+    fs_neg f = neg (fs_set f) /\
+    (forall a b, fs_range f = Some (a, b) ->
+       forall x, char_in cat_in (fs_set f) x = xorb (fs_neg f) ((a <=? x) && (x <=? b))) /\
+    (fs_chars f <> [] ->
+       forall x, char_in cat_in (fs_set f) x = xorb (fs_neg f) (existsb (Z.eqb x) (fs_chars f))).
+Proof.
+  intros cat_in sets th root f Hg Hs Hl Hin. unfold find_fixed_distance_sets in Hin. apply in_map_iff in Hin.
+  destruct Hin as [[S d] [<- Hin]].
+  destruct (abbrev_decorate cat_in S d (abbrev_raw_good cat_in sets (sets_good_b cat_in sets Hg) th root Hs Hl S d Hin))
+    as (E1 & E2 & E3 & E4 & E5).
+  rewrite E1. split; [exact E3|]. split; [exact E4|exact E5].
+Qed.
+Print Assumptions C04_fixed_set_abbrev.
+
+(* findFixedDistanceString (optimizations.go:629) on the published sets: the string occurs at p + its distance at
+   every successful attempt at p (FindMode FixedDistanceString_LeftToRight); and a set whose Chars is one valid,
+   non-negated character pins that character (FixedDistanceChar_LeftToRight, LeadingChar). *)
+Theorem C04_fixed_distance_string_sound :
+  forall e (cat_in : Z -> Z -> bool) (sets : list cls) (thorough : bool) fuel root p s' str d0,
+    forallb cls_good_b sets = true ->
+    (forall id x, set_in e id x = char_in cat_in (set_cls sets id) x) ->
+    (forall i, 0 <= char_at e i <= 1114111) -> tlen e < INF ->
+    shape_ok false root = true -> no_ci_lit root = true -> lits_ok root = true -> 0 <= p <= tlen e ->
+    attempt e fuel root p = Ok (Some s') ->
+    find_fixed_distance_string (find_fixed_distance_sets cat_in sets thorough root) = Some (str, d0) ->
+    forall i, 0 <= i < zlen str -> char_at e (p + d0 + i) = nth (Z.to_nat i) str 0.
+Proof.
+  intros e cat_in sets th fuel root p s' str d0 Hg Ha Hv Hshort Hs Hn Hl Hp Hat Hf.
+  apply (fds_string_true cat_in e p (find_fixed_distance_sets cat_in sets th root) str d0); [|exact Hf].
+  exact (abbrev_all_true cat_in sets (sets_good_b cat_in sets Hg) e p Ha Hv Hshort th fuel root s' Hs Hn Hl Hp Hat).
+Qed.
+Print Assumptions C04_fixed_distance_string_sound.
+
+Theorem C04_fixed_distance_char_sound :
+  forall e (cat_in : Z -> Z -> bool) (sets : list cls) (thorough : bool) fuel root p s' f c,
+    forallb cls_good_b sets = true ->
+    (forall id x, set_in e id x = char_in cat_in (set_cls sets id) x) ->
+    (forall i, 0 <= char_at e i <= 1114111) -> tlen e < INF ->
+    shape_ok false root = true -> no_ci_lit root = true -> lits_ok root = true -> 0 <= p <= tlen e ->
+    attempt e fuel root p = Ok (Some s') ->
+    In f (find_fixed_distance_sets cat_in sets thorough root) -> fds_single f = Some c ->
+    p + fs_dist f < tlen e /\ char_at e (p + fs_dist f) = c.
+Proof.
+  intros e cat_in sets th fuel root p s' f c Hg Ha Hv Hshort Hs Hn Hl Hp Hat Hin Hsg.
+  pose proof (abbrev_all_true cat_in sets (sets_good_b cat_in sets Hg) e p Ha Hv Hshort th fuel root s' Hs Hn Hl Hp Hat f Hin) as Ht.
+  split; [exact (proj1 (proj2 Ht))|exact (fds_single_true cat_in e p f c Ht Hsg)].
+Qed.
+Print Assumptions C04_fixed_distance_char_sound.
+
+(* ---- non-vacuity ---- *)
+Definition ex2_sets : list cls := [ranges_cls [(98, 99)]].                       (* [bc] *)
+Definition ex2_cat : Z -> Z -> bool := fun _ _ => false.
+Definition ex2_env (t : list Z) : env :=
+  {| txt := t; tstart := 0; ecma := false; endz_strict := false;
+     set_in := fun id x => char_in ex2_cat (set_cls ex2_sets id) x;
+     lower := fun r => r; is_word := fun _ => false; is_eword := fun _ => false |}.
+
+(* a[bc]d on "abd": three sets at distances 0, 1, 2, all true at the match; on "xbd" the attempt fails and
+   'x' is not in the set published for distance 0 *)
+Definition ex2_fixed : node :=
+  NCapture 0 0 (-1) (NConcat 0 [NChar COne 0 97; NChar CSet 0 0; NChar COne 0 100]).
+Example C04_witness_fixed_sets :
+  forallb cls_good_b ex2_sets = true /\ shape_ok false ex2_fixed = true /\ no_ci_lit ex2_fixed = true /\
+  lits_ok ex2_fixed = true /\
+  map (fun f => (ranges (fs_set f), fs_chars f, fs_dist f)) (find_fixed_distance_sets ex2_cat ex2_sets false ex2_fixed)
+    = [([(97, 97)], [97], 0); ([(98, 99)], [98; 99], 1); ([(100, 100)], [100], 2)] /\
+  attempt (ex2_env [97; 98; 100]) 10 ex2_fixed 0 = Ok (Some {| pos := 3; caps := [(0, [(0, 3)])] |}) /\
+  attempt (ex2_env [120; 98; 100]) 10 ex2_fixed 0 = Ok None /\
+  char_in ex2_cat (ranges_cls [(97, 97)]) 120 = false.
+Proof. vm_compute. repeat split; reflexivity. Qed.
+
+(* (?:ab|cd)e with the thorough analysis: the alternation's branches are merged per distance *)
+Definition ex2_alt : node :=
+  NCapture 0 0 (-1) (NConcat 0 [NAlternate 0 [NMulti 0 [97; 98]; NMulti 0 [99; 100]]; NChar COne 0 101]).
+Example C04_witness_fixed_sets_alternation :
+  shape_ok false ex2_alt = true /\ lits_ok ex2_alt = true /\
+  map (fun f => (ranges (fs_set f), fs_dist f)) (find_fixed_distance_sets ex2_cat [] true ex2_alt)
+    = [([(97, 97); (99, 99)], 0); ([(98, 98); (100, 100)], 1); ([(101, 101)], 2)] /\
+  find_fixed_distance_sets ex2_cat [] false ex2_alt <> [] /\
+  map (fun f => (ranges (fs_set f), fs_dist f)) (find_fixed_distance_sets ex2_cat [] false ex2_alt)
+    = [([(97, 97); (99, 99)], 0)] /\
+  attempt (ex2_env [99; 100; 101]) 10 ex2_alt 0 = Ok (Some {| pos := 3; caps := [(0, [(0, 3)])] |}).
+Proof. vm_compute. repeat split; try reflexivity. discriminate. Qed.
+
+(* a*[bc]: nothing at a fixed distance, the first-character class is [a-c]; the empty-able a*b* has none *)
+Definition ex2_ffcc : node :=
+  NCapture 0 0 (-1) (NConcat 0 [NCharLoop COne LGreedy 0 97 0 INF; NChar CSet 0 0]).
+Example C04_witness_first_char_class :
+  shape_ok false ex2_ffcc = true /\ lits_ok ex2_ffcc = true /\
+  option_map ranges (find_first_char_class ex2_cat ex2_sets ex2_ffcc) = Some [(97, 99)] /\
+  attempt (ex2_env [97; 97; 99]) 10 ex2_ffcc 0 = Ok (Some {| pos := 3; caps := [(0, [(0, 3)])] |}) /\
+  attempt (ex2_env [100; 99]) 10 ex2_ffcc 0 = Ok None /\
+  find_first_char_class ex2_cat ex2_sets
+    (NCapture 0 0 (-1) (NConcat 0 [NCharLoop COne LGreedy 0 97 0 INF; NCharLoop COne LGreedy 0 98 0 INF])) = None.
+Proof. vm_compute. repeat split; reflexivity. Qed.
+
+(* [bc]*d+ on "bcbd": the literal 'd' after the loop set [bc]; k = 3 *)
+Definition ex2_lal : node :=
+  NCapture 0 0 (-1) (NConcat 0 [NCharLoop CSet LGreedy 0 0 0 INF; NCharLoop COne LGreedy 0 100 1 INF]).
+Example C04_witness_literal_after_loop :
+  shape_ok false ex2_lal = true /\ no_ci_lit ex2_lal = true /\
+  find_lit_after_loop ex2_cat (fun _ => true) ex2_sets ex2_lal = Ok (Some {| lal_loop := 0; lal_what := LalChar 100 |}) /\
+  attempt (ex2_env [98; 99; 98; 100]) 10 ex2_lal 0 = Ok (Some {| pos := 4; caps := [(0, [(0, 4)])] |}) /\
+  attempt (ex2_env [98; 97; 100]) 10 ex2_lal 0 = Ok None /\
+  find_lit_after_loop ex2_cat (fun _ => true) ex2_sets
+    (NCapture 0 0 (-1) (NConcat 0 [NCharLoop CSet LGreedy 0 0 0 INF; NChar COne 0 98])) = Ok None.
+Proof. vm_compute. repeat split; reflexivity. Qed.
+
+(* (?:ab|cd)[bc] : the two prefixes "ab", "cd" *)
+Definition ex2_pref : node :=
+  NCapture 0 0 (-1) (NConcat 0 [NAlternate 0 [NMulti 0 [97; 98]; NMulti 0 [99; 100]]; NChar CSet 0 0]).
+Example C04_witness_prefixes :
+  shape_ok false ex2_pref = true /\ no_ci_lit ex2_pref = true /\
+  find_prefixes ex2_cat (fun _ => true) ex2_sets false ex2_pref = Some [[97; 98]; [99; 100]] /\
+  find_prefixes ex2_cat (fun _ => true) ex2_sets true ex2_pref = None /\
+  attempt (ex2_env [99; 100; 98]) 10 ex2_pref 0 = Ok (Some {| pos := 3; caps := [(0, [(0, 3)])] |}) /\
+  attempt (ex2_env [97; 100; 98]) 10 ex2_pref 0 = Ok None.
+Proof. vm_compute. repeat split; reflexivity. Qed.
+
+(* [bc]+ a [bc]+ d [bc]+ : leading loop [bc]+, landmarks 'a' and 'd' (the set loops between them are skipped) *)
+Definition ex2_chain : node :=
+  NCapture 0 0 (-1) (NConcat 0 [NCharLoop CSet LGreedy 0 0 1 INF; NChar COne 0 97; NCharLoop CSet LGreedy 0 0 1 INF;
+                                NChar COne 0 100; NCharLoop CSet LGreedy 0 0 1 INF]).
+Example C04_witness_landmark_chain :
+  shape_ok false ex2_chain = true /\ no_ci_lit ex2_chain = true /\ lits_ok ex2_chain = true /\
+  option_map (fun c => (fst c, map (map la_lit) (snd c))) (find_landmark_chain ex2_cat ex2_sets ex2_chain)
+    = Some (0, [[[97]]; [[100]]]) /\
+  attempt (ex2_env [98; 97; 99; 100; 98]) 10 ex2_chain 0 = Ok (Some {| pos := 5; caps := [(0, [(0, 5)])] |}) /\
+  attempt (ex2_env [98; 100; 99; 97; 98]) 10 ex2_chain 0 = Ok None.
+Proof. vm_compute. repeat split; reflexivity. Qed.
+
+(* right-to-left [^a]b (evaluation order: b first): the legacy first characters are {b}, read at p-1;
+   and the left-to-right Notone of an astral character keeps its upper complement range (defect 55190b7) *)
+Definition ex2_fc_rtl : node := NCapture 64 0 (-1) (NConcat 64 [NChar COne 64 98; NChar CNotone 64 97]).
+Example C04_witness_first_chars_prefix :
+  shape_ok true ex2_fc_rtl = true /\ no_ci_lit ex2_fc_rtl = true /\ lits_ok ex2_fc_rtl = true /\
+  match first_chars_prefix ex2_cat (fun r => r) [] ex2_fc_rtl with
+  | Ok (Some (c, ci)) => (ranges c, neg c, ci) = ([(98, 98)], false, false)
+  | _ => False
+  end /\
+  attempt (ex2_env [120; 98]) 10 ex2_fc_rtl 2 = Ok (Some {| pos := 0; caps := [(0, [(0, 2)])] |}) /\
+  attempt (ex2_env [98; 120]) 10 ex2_fc_rtl 2 = Ok None /\
+  match first_chars_prefix ex2_cat (fun r => r) [] (NCapture 0 0 (-1) (NChar CNotone 0 65536)) with
+  | Ok (Some (c, _)) => (ranges c, neg c) = ([(65536, 65536)], true)
+  | _ => False
+  end.
+Proof. vm_compute. repeat split; reflexivity. Qed.
+
+(* [bc]ad : the literal "ad" at distance 1 *)
+Definition ex2_fdstr : node :=
+  NCapture 0 0 (-1) (NConcat 0 [NChar CSet 0 0; NMulti 0 [97; 100]]).
+Example C04_witness_fixed_distance_string :
+  shape_ok false ex2_fdstr = true /\ lits_ok ex2_fdstr = true /\
+  find_fixed_distance_string (find_fixed_distance_sets ex2_cat ex2_sets false ex2_fdstr) = Some ([97; 100], 1) /\
+  attempt (ex2_env [99; 97; 100]) 10 ex2_fdstr 0 = Ok (Some {| pos := 3; caps := [(0, [(0, 3)])] |}).
+Proof. vm_compute. repeat split; reflexivity. Qed.
